@@ -1059,12 +1059,16 @@ class Descriptor(ObjectWithFields):
                                      self.classname(), self.size, len(payload))
             self.size = len(payload)
         d.write('B', 'tag')
+        # the size is written 7 bits at a time, most significant bits first
         sizes = []
         size = self.size
         while size > 0x7f:
-            sizes.append(size & 0x7f)
+            sizes.insert(0, size & 0x7f)
             size = size >> 7
-        sizes.append(size & 0x7f)
+        sizes.insert(0, size & 0x7f)
+        # keep the padded form (e.g. 80 80 80 nn) if that was used when parsed
+        while len(sizes) < getattr(self, 'header_size', 0) - 1:
+            sizes.insert(0, 0)
         while sizes:
             a = sizes.pop(0)
             flag = 0x80 if sizes else 0x00
